@@ -341,6 +341,17 @@ class PX:
         if top and a.kwarg and a.kwarg.arg in kwargs:
             extra_kw.update(kwargs.pop(a.kwarg.arg))
         allowed = set(pos) | {x.arg for x in a.kwonlyargs}
+        if top and not a.kwarg and any(k not in allowed for k in kwargs) and not args:
+            # a rule names the explored function's parameters as they are called on the pinned tree; a renamed parameter of a
+            # private helper is matched by position (the rules list the arguments in declaration order)
+            free = [n for n in pos]
+            named_ok = {k: v for k, v in kwargs.items() if k in allowed}
+            rest = [(k, v) for k, v in kwargs.items() if k not in allowed]
+            open_pos = [n for n in free if n not in named_ok]
+            if len(rest) <= len(open_pos):
+                kwargs = dict(named_ok)
+                for (k, v), n in zip(rest, open_pos):
+                    kwargs[n] = v
         for k, v in kwargs.items():
             if k in allowed:
                 locs[k] = v
@@ -1671,6 +1682,23 @@ class PX:
         if isinstance(fval, TypeRef) and fval.name == "dataclasses.replace" and args and isinstance(args[0], Obj):
             o = Obj(args[0].cls, {**args[0].fields, **kw}, tag=args[0].tag)
             return o
+        if isinstance(fval, TypeRef) and fval.name in ("operator.methodcaller", "operator.attrgetter", "operator.itemgetter") and args:
+            return _OpCallable(fval.name[9:], args, kw)
+        if isinstance(fval, _OpCallable) and len(args) == 1:
+            o = args[0]
+            if fval.kind == "methodcaller":
+                m = self.getattr(o, fval.args[0], fr, node)
+                return self.do_call(m, f"{_short(o)}.{fval.args[0]}", list(fval.args[1:]), dict(fval.kw), fr, node, False)
+            if fval.kind == "attrgetter":
+                vals = []
+                for path in fval.args:
+                    v = o
+                    for part in str(path).split("."):
+                        v = self.getattr(v, part, fr, node)
+                    vals.append(v)
+                return vals[0] if len(vals) == 1 else tuple(vals)
+            vals = [self.subscript(o, k_, fr, node) for k_ in fval.args]
+            return vals[0] if len(vals) == 1 else tuple(vals)
         if isinstance(fval, TypeRef) and fval.name.startswith("operator.") and not kw:
             import operator as _op
 
@@ -1712,6 +1740,27 @@ class PX:
                 return Iter(_it.count(*vals, **kw), "count")
             if nm in ("islice", "repeat", "zip_longest", "product", "pairwise", "batched", "takewhile_") and hasattr(_it, nm):
                 return Iter(getattr(_it, nm)(*[conv(a) if i == 0 or nm in ("zip_longest", "product") else (a.value if isinstance(a, Member) else a) for i, a in enumerate(args)], **kw), nm)
+            if nm in ("filterfalse", "takewhile", "dropwhile") and len(args) == 2:
+                pred, src = args[0], conv(args[1])
+
+                def gen_f():
+                    dropping = True
+                    for x in src:
+                        t_ = bool(x) if pred is None else self.truth(self._apply(pred, [x], fr, node, text), fr, node)
+                        if nm == "filterfalse":
+                            if not t_:
+                                yield x
+                        elif nm == "takewhile":
+                            if not t_:
+                                return
+                            yield x
+                        else:
+                            if dropping and t_:
+                                continue
+                            dropping = False
+                            yield x
+
+                return Iter(gen_f(), nm)
             if nm == "starmap" and len(args) == 2:
                 return Iter((self._apply(args[0], list(xs), fr, node, text) for xs in conv(args[1])), "starmap")
             if nm == "accumulate" and args:
@@ -1821,6 +1870,8 @@ class PX:
             if short in self.hier.parent or short.endswith(("Error", "Exception")):
                 return Obj(fval, {"args": tuple(args), **kw}, tag=short)
             return self.opaque(text, args, kw, fr, node, awaited, _short(fval))
+        if isinstance(fval, Sym) and fval.tag.startswith("self.") and not text.startswith("self.") and "#" not in fval.tag and "(" not in fval.tag:
+            text = fval.tag  # a method of an attribute-held object called through a local alias: reported under its access path
         return self.opaque(text, args, kw, fr, node, awaited, _short(fval) if isinstance(fval, Sym) else None)
 
     def _make_nt(self, cls, args, kw, text):
@@ -2235,6 +2286,13 @@ def int_type_of(t):
 class _DCReplace:
     def __init__(self, obj):
         self.obj = obj
+
+
+class _OpCallable:
+    """operator.methodcaller / attrgetter / itemgetter objects."""
+
+    def __init__(self, kind, args, kw):
+        self.kind, self.args, self.kw = kind, tuple(args), dict(kw)
 
 
 class _PyMethod:
